@@ -67,7 +67,7 @@ fn option_set(rng: &mut Rng, ops: &[String], query_path: &str) -> Value {
     if rng.chance(1, 3) {
         o.insert(
             "variables_derives".into(),
-            json!(*rng.pick(&["Debug", "Default", "Debug, PartialEq, Clone", "Clone,Debug"])),
+            json!(*rng.pick(&["Debug", "Default", "Debug, PartialEq, Clone", "Clone,Debug", "my_traits::Zeta, my_traits::Alpha", "Debug, my_traits::Alpha, my_traits::Zeta"])),
         );
     }
     if rng.chance(1, 3) {
@@ -77,7 +77,11 @@ fn option_set(rng: &mut Rng, ops: &[String], query_path: &str) -> Value {
                 "Debug",
                 "Debug, PartialEq, Eq",
                 "Serialize,Clone",
-                "Debug, PartialEq, Eq, std::cmp::PartialOrd"
+                "Debug, PartialEq, Eq, std::cmp::PartialOrd",
+                // derive paths nobody has a table for, in both orders
+                "Debug, my_traits::Zeta, my_traits::Alpha",
+                "my_traits::Alpha, Debug, my_traits::Zeta",
+                "zz::Last, aa::First, Clone"
             ])),
         );
     }
